@@ -308,6 +308,31 @@ func streamOps(o *Out, r *rand.Rand, n int, thorough bool) {
 			}
 		}
 	}
+	// 1c. small integers are values, not shared cells: a script that writes through every handle it can get to a small result
+	// (compound assignment, increment, address-of) must not change what later arithmetic - anywhere in the process - computes
+	poisons := []string{
+		"i = 0\ni++\np = &i\n*p = 50", "i = 5\ni += 1\np = &i\n*p = 77", "i = 3\ni--\np = &i\n*p = -9", "i = 2\ni *= 2\np = &i\n*p = 1000", "i = 7\ni -= 7\np = &i\n*p = 5",
+		"i = 1\ni |= 2\np = &i\n*p = 44", "i = 7\ni &= 3\np = &i\n*p = 45", "i = 10\ni /= 2\np = &i\n*p = 46", "i = 1\ni <<= 3\np = &i\n*p = 47", "n = len(\"abc\")\np = &n\n*p = 48",
+		"a = 2 + 4\np = &a\n*p = 100", "for i = 0; i < 5; i++ {\np = &i\n}\nj = 4\nj++\nq = &j\n*q = 99", "x = [1 + 1][0]\np = &x\n*p = 60", "func f() { return 1 + 2 }\nr = f()\nr++\np = &r\n*p = 61",
+	}
+	checks := []struct {
+		src  string
+		want int64
+	}{{"0 + 1", 1}, {"3 - 2", 1}, {"5 + 1", 6}, {"4 - 2", 2}, {"2 * 2", 4}, {"0 * 7", 0}, {"1 | 2", 3}, {"7 & 3", 3}, {"1 << 3", 8}, {"len(\"abc\")", 3}, {"2 + 4", 6}, {"4 + 1", 5}, {"1 + 1", 2}, {"1 + 2", 3}, {"3 + 1", 4},
+		{"n = 0\nfor i = 0; i < 3; i++ {\nn++\n}\nn", 3}, {"-(-1)", 1}, {"10 % 7", 3}, {"16 >> 2", 4}}
+	for _, ps := range poisons {
+		_ = runScript(ps, nil, nil)
+		for _, c := range checks {
+			out := runScript(c.src, nil, nil)
+			o.Sum.Evaluations++
+			o.Sum.Hist["class:after-poison"]++
+			if out.panicked || out.err != nil || !sameValue(c.want, out.val) {
+				o.Fail(Failure{Oracle: "go-arithmetic", Key: "small-int-shared-cell", Input: ps + "\n--- then, in a fresh environment ---\n" + c.src,
+					Detail: fmt.Sprintf("Go computes %d; after the first script the interpreter gives %v (err %v)", c.want, out.val, out.err)})
+				break
+			}
+		}
+	}
 	// 2. random pairs over the whole pool (strings, containers, nil, bools included)
 	all := vals.All()
 	allOps := append(append(append([]string{}, arithOps...), logicOps...), eqOps...)
